@@ -45,8 +45,9 @@ type c14 struct {
 	// attrDir marks named attribute directories and what was created
 	// below them. Unless W7_EXOTIC=attrdir-links, leaves are not moved or
 	// linked across the border of such a hierarchy (see meta.json).
-	attrDir map[virtual.PrepopulatedDirectory]bool
-	exotic  bool
+	attrDir    map[virtual.PrepopulatedDirectory]bool
+	exotic     bool
+	exoticLink bool
 
 	stopping  bool
 	overlap   bool
@@ -77,6 +78,11 @@ func runC14(r *simrun.Run) {
 	e := newEnv(r, "C14", false)
 	w := &c14{e: e, k: e.k, t: t, track: map[string]*lockTrack{}, rank: map[virtual.PrepopulatedDirectory]int{}, rankLB: map[virtual.PrepopulatedDirectory]int{}, attrDir: map[virtual.PrepopulatedDirectory]bool{}}
 	w.exotic = strings.Contains(os.Getenv("W7_EXOTIC"), "attrdir-links")
+	// One run in ten also links leaves into named attribute directories:
+	// that path has a recorded genuine defect (see known_findings.json), so it
+	// is kept rare, and the call is labelled so that the finding is
+	// recognisable.
+	w.exoticLink = w.exotic || t.Bool(1, 10)
 	w.build()
 	maxOps := 4 + t.Choice(12)
 	if r.Tier == "thorough" {
@@ -566,9 +572,13 @@ func (c *caller) call() {
 		}
 	case 11:
 		l := pick(t, w.leaves)
-		if w.attrDir[d] && !w.exotic {
+		if w.attrDir[d] && !w.exoticLink {
 			d = w.dirs[t.Choice(5)]
 			dn = w.dirName(d)
+		}
+		if w.attrDir[d] {
+			dn += "[named-attribute-directory]"
+			w.k.Probe("c14_link_into_named_attribute_directory")
 		}
 		c.begin("VirtualLink(%s, %q, leaf)", dn, name)
 		var out virtual.Attributes
